@@ -163,7 +163,14 @@ def vore_matches(msx):
 
 FIXED = [("a|b", "a|b", []), ("(a)+", "(a)+", [("_1", 1)]), ("(a|b){2}c", "(a|b){2}c", [("_1", 1)]), ("(?<x>a+)b\\k<x>", "(?P<x>a+)b(?P=x)", [("x", 1)]),
          ("^a.c$", "^a.c$", []), ("[^a]\\d*?1", "[^a]\\d*?1", []), ("(?:a|(b))+\\1", "(?:a|(b))+(?:\\1)", [("_1", 1)]), ("(a)(?<n>b)(c)\\2", "(a)(?P<n>b)(c)(?:\\3)", [("_1", 1), ("n", 2), ("_2", 3)]),
-         ("a{2,3}?a", "a{2,3}?a", []), ("(?:(?:a|b)+|c)x", "(?:(?:a|b)+|c)x", []), ("\\s+\\S", "\\s+\\S", []), ("a{0,2}b{1,}", "a{0,2}b{1,}", [])]
+         ("a{2,3}?a", "a{2,3}?a", []), ("(?:(?:a|b)+|c)x", "(?:(?:a|b)+|c)x", []), ("\\s+\\S", "\\s+\\S", []), ("a{0,2}b{1,}", "a{0,2}b{1,}", []),
+         # a bounded group with a choice point inside that has to give characters back after a longer attempt failed
+         ("(a+)?a", "(a+)?a", [("_1", 1)]), ("(.{1,})?b{1,3}", "(.{1,})?b{1,3}", [("_1", 1)]), ("(?:(?:ab)|a){0,2}b", "(?:(?:ab)|a){0,2}b", []), ("(b+)?b{1,2}", "(b+)?b{1,2}", [("_1", 1)]),
+         ("(?:a+b?){1,2}a", "(?:a+b?){1,2}a", []), ("((?:a)|(?:ab)){1,2}c", "((?:a)|(?:ab)){1,2}c", [("_1", 1)]),
+         # a back-reference to a capture of several characters tried right where a one-character read has just been tried
+         ("(ab)c?\\1", "(ab)c?(?:\\1)", [("_1", 1)]), ("(a+)b?\\1", "(a+)b?(?:\\1)", [("_1", 1)]), ("(ab)(?:x|\\1)", "(ab)(?:x|(?:\\1))", [("_1", 1)]),
+         ("(?<w>ab)-?\\k<w>", "(?P<w>ab)-?(?P=w)", [("w", 1)]), ("(ab)\\1?.", "(ab)(?:\\1)?.", [("_1", 1)]), ("(abc)[a-c]?\\1", "(abc)[a-c]?(?:\\1)", [("_1", 1)])]
+FIXED_TEXTS = ["aa", "aab acb", "abab", "abbaba", "aaaa", "abab ab-ab", "abcd", "abcabc abcaabc", "ababab", "aaba", "ab-ab abab", "abc", "aabac"]
 
 
 def run(ctx):
@@ -183,6 +190,8 @@ def run(ctx):
             ctx.notes.append("oracle rejects %r: %s" % (p, e))
             continue
         texts = [gen_text(rng) for _ in range(8 if quick else 12)] + ["", "abcabc", "aab1 ab\nba"]
+        if (v, p, groups) in FIXED:
+            texts = texts + FIXED_TEXTS
         cases.append({"src": "find all @/%s/" % v, "texts": texts})
         meta.append((v, p, groups, pat, texts))
     gres, dis, stats = corr_core.run_core(cases, shards=12, spec=True)
